@@ -191,7 +191,7 @@ def run(chk):
     chk.coq()
     # (+ a non-orthogonal up-down symmetric double null whose outer targets are so oblique that contours are extended to reach the wall: the leg that ENDS on the wall is the
     # mirror image of one that STARTS on it, so the two near-identical blocks of addPointAtWallToContours are compared with each other)
-    G = {g.name: g for g in corpus.get(tier=chk.tier, extra_cfgs=[corpus.steep_cdn_cfg()]) if g.ok}
+    G = {g.name: g for g in corpus.get(tier=chk.tier, extra_cfgs=[corpus.steep_cdn_cfg(), dict(corpus.CONFIGS["usn_nonorth"], must_build=True)]) if g.ok}
     n = 0
     # the two ends of a region are treated alike by the non-orthogonal blending (a region's start is its mirror image's end)
     n += c10.check_range_parameters(chk, prefix="mirror:")
@@ -199,7 +199,7 @@ def run(chk):
 
     def st(k):
         return stats.setdefault(k, dict(pos=0.0, mag=0.0, xpoint_line=0.0))
-    mirrors = [("lsn_35", "usn", "sn"), ("cdn_nonorth_steep", "cdn_nonorth_steep", "dn-connected-nonorth-extended"), ("udn", "udn_m", "dn-disconnected"), ("cdn_sym", "cdn_sym", "dn-connected")]
+    mirrors = [("lsn_35", "usn", "sn"), ("cdn_nonorth_steep", "cdn_nonorth_steep", "dn-connected-nonorth-extended"), ("lsn_nonorth", "usn_nonorth", "sn-nonorth"), ("udn", "udn_m", "dn-disconnected"), ("cdn_sym", "cdn_sym", "dn-connected")]
     if chk.tier == "thorough":
         mirrors += [("udn2", "udn2_m", "dn-disconnected")]
     for a, b, kind in mirrors:
